@@ -404,7 +404,8 @@ SPEC = PropSpec(
                  "with an unrelated xsi declaration, each with and without comments between all elements) must load to "
                  "the same definition, and so must each target after histories of earlier loads drawn from other "
                  "renderings, malformed input and documents that fail half-way. lxml's own namespace resolution is "
-                 "modelled, not decided."),
+                 "modelled, not decided."
+                 ' Path histories: the same path loaded again through load_xml after the file was replaced by another rendering or by malformed XML reflects the file, and two loads never share one definition object.'),
     rule_doc="R16.1/R16.3 per reader function; R16.2 per setter; R16.m per rendering and per (history, target)",
     assumptions=["lxml: ElementPath `*` and named steps select elements only; iterating an element yields comments too",
                  "lxml resolves prefixes through the namespaces= argument (None key = default namespace)"],
